@@ -93,10 +93,35 @@ type (
 	}
 )
 
+// Definitions with embedded fields (reflect.StructOf cannot build an embedded field of an unexported type): an embedded struct is a
+// field named after its type, so one whose type name is unexported is skipped like any unexported field, and one whose type name is
+// exported needs a tag like any exported field.
+type (
+	embBase struct {
+		X int `plenc:"1"`
+	}
+	EmbBase struct {
+		X int `plenc:"1"`
+	}
+	EmbLow struct {
+		embBase
+		Name string `plenc:"1"`
+	}
+	EmbUp struct {
+		EmbBase `plenc:"2"`
+		Name    string `plenc:"1"`
+	}
+	EmbUpNoTag struct {
+		EmbBase
+		Name string `plenc:"1"`
+	}
+)
+
 // StaticBad are Go types used by name in "typedef" cases (they cannot be built with reflect.StructOf).
 var StaticBad = map[string]reflect.Type{
 	"BadRecS": reflect.TypeOf(BadRecS{}), "BadRecP": reflect.TypeOf(BadRecP{}), "BadRecM": reflect.TypeOf(BadRecM{}),
 	"BadRecD": reflect.TypeOf(BadRecD{}), "BadRecDP": reflect.TypeOf(BadRecDP{}),
+	"EmbLow": reflect.TypeOf(EmbLow{}), "EmbUp": reflect.TypeOf(EmbUp{}), "EmbUpNoTag": reflect.TypeOf(EmbUpNoTag{}),
 }
 
 // Marked is the named type for which some instances register a marker codec (C17).
